@@ -1674,13 +1674,21 @@ func (d *Dot11InformationElement) String() string {
 
 func (m Dot11InformationElement) SerializeTo(b gopacket.SerializeBuffer, opts gopacket.SerializeOptions) error {
 	length := len(m.Info) + len(m.OUI)
-	if buf, err := b.PrependBytes(2 + length); err != nil {
+	ext := 0
+	if m.ID == 255 {
+		// extension elements carry their extension id in front of the info
+		ext = 1
+	}
+	if buf, err := b.PrependBytes(2 + ext + length); err != nil {
 		return err
 	} else {
 		buf[0] = uint8(m.ID)
-		buf[1] = uint8(length)
-		copy(buf[2:], m.OUI)
-		copy(buf[2+len(m.OUI):], m.Info)
+		buf[1] = uint8(ext + length)
+		if ext == 1 {
+			buf[2] = uint8(m.ExtensionID)
+		}
+		copy(buf[2+ext:], m.OUI)
+		copy(buf[2+ext+len(m.OUI):], m.Info)
 	}
 	return nil
 }
